@@ -285,3 +285,132 @@ int e2_chain_main(int maxn, int embedded)
     free(r.present); free(r.serial); free(cleaned);
     return 0;
 }
+
+
+/* ---- every operation sequence up to a depth, WITHOUT merging states ---------------------------------------------------
+ * The breadth-first search of e2_set.c merges histories that reach the same tree shape, which is sound only if the shape is
+ * all the state there is.  This enumeration does not merge: every sequence of <= depth operations over nkeys keys - insert,
+ * remove, find, lower, iterate (first/next walk and prev links), clear - is replayed from an empty set, the structure is
+ * NOT inspected between the operations (an audit walks the set with set_first/set_next and would itself be an "iterate"),
+ * each operation's own result is compared with the mathematical set, and the full audit runs after the last one.  State
+ * kept outside the tree (a remembered first element, a cached lookup) cannot hide here.
+ * usage: core_vh set seqs <nkeys> <depth> [embedded]
+ */
+enum { S_INSERT, S_REMOVE, S_FIND, S_LOWER, S_ITER, S_CLEAR, S_NKINDS };
+
+static long seq_runs, seq_viol;
+
+static void seq_report(const char *dom, const int *ops, int n, int nkeys)
+{
+    static const char *nm[] = { "insert", "remove", "find", "lower", "iterate", "clear" };
+    int i;
+    if (seq_viol++ >= 20) return;
+    printf("{\"violation\":{\"domain\":\"%s\",\"n\":%d,\"shape\":\"", dom, nkeys);
+    for (i = 0; i < n; ++i) {
+        int kind = ops[i] / 16, key = ops[i] % 16;
+        if (kind == S_ITER || kind == S_CLEAR) printf("%s%s", i ? " " : "", nm[kind]);
+        else printf("%s%s(%d)", i ? " " : "", nm[kind], key);
+    }
+    printf("\",\"op\":\"sequence\",\"key\":%d,\"detail\":\"%s\"}}\n", n, vbuf);
+}
+
+static void seq_run(const int *ops, int n, int nkeys, int embedded, struct cref *r)
+{
+    struct set *s = cmake(embedded);
+    int i, k;
+    memset(r->present, 0, r->nkeys);
+    r->count = 0;
+    next_ser = 0;
+    memset(cleaned, 0, sizeof(int) * cap_ser);
+    ncleaned_total = 0;
+    vset = 0;
+    for (i = 0; i < n && !vset; ++i) {
+        int kind = ops[i] / 16, key = ops[i] % 16, before = ncleaned_total, exp = 0;
+        switch (kind) {
+        case S_INSERT: {
+            struct set_node *nd = cnode(key);
+            int old = r->present[key] ? r->serial[key] : -1;
+            set_insert(s, nd);
+            if (old >= 0) { exp = 1; if (cleaned[old] != 1) cfail("step %d insert(%d): cleanup ran %d times on the replaced element", i, key, cleaned[old]); }
+            else { r->present[key] = 1; r->count++; }
+            r->serial[key] = ((struct celem *)set_node_data(nd))->serial;
+            break;
+        }
+        case S_REMOVE: {
+            int was = r->present[key], old = was ? r->serial[key] : -1;
+            int res = set_remove(s, &key, 0);
+            if (!!res != !!was) cfail("step %d remove(%d) returned %d, expected %d", i, key, res, was);
+            if (was) { exp = 1; r->present[key] = 0; r->count--; if (!vset && cleaned[old] != 1) cfail("step %d remove(%d): cleanup ran %d times on the removed element", i, key, cleaned[old]); }
+            break;
+        }
+        case S_FIND: {
+            struct celem *e = set_find(s, &key);
+            if (r->present[key] && (!e || e->serial != r->serial[key])) cfail("step %d find(%d) did not return the element of the set", i, key);
+            else if (!r->present[key] && e) cfail("step %d find(%d) returned an element, the key is not in the set", i, key);
+            break;
+        }
+        case S_LOWER: {
+            struct set_node *nd = set_lower(s, &key);
+            int want = ref_lower_key(r, key);
+            if ((want < 0) != (nd == NULL) || (nd && ((struct celem *)set_node_data(nd))->key != want))
+                cfail("step %d lower(%d) returned %d, expected %d", i, key, nd ? ((struct celem *)set_node_data(nd))->key : -1, want);
+            break;
+        }
+        case S_ITER: {
+            char when[32];
+            snprintf(when, sizeof(when), "step %d iterate", i);
+            caudit(s, r, when);
+            break;
+        }
+        case S_CLEAR: {
+            exp = r->count;
+            set_clear(s, 0);
+            for (k = 0; k < r->nkeys; ++k) r->present[k] = 0;
+            r->count = 0;
+            break;
+        }
+        }
+        if (!vset && (int)set_size(s) != r->count) cfail("step %d: set_size()=%u, the set holds %d keys", i, set_size(s), r->count);
+        if (!vset && ncleaned_total - before != exp) cfail("step %d: cleanup ran %d times, expected %d", i, ncleaned_total - before, exp);
+    }
+    if (!vset) caudit(s, r, "after the last operation");
+    seq_runs++;
+    if (vset) { seq_report(embedded ? "seqs@embedded" : "seqs", ops, n, nkeys); return; }   /* leak the damaged structure */
+    set_clear(s, 0);
+    free(s);
+}
+
+static void seq_dfs(int *ops, int n, int depth, int nkeys, int embedded, struct cref *r)
+{
+    int kind, key;
+    if (n > 0) seq_run(ops, n, nkeys, embedded, r);
+    if (n == depth) return;
+    for (kind = 0; kind < S_NKINDS; ++kind)
+        for (key = 0; key < ((kind == S_ITER || kind == S_CLEAR) ? 1 : nkeys); ++key) {
+            /* two iterations in a row, or a clear of what was just cleared, add nothing */
+            if (n > 0 && (kind == S_ITER || kind == S_CLEAR) && ops[n - 1] / 16 == kind) continue;
+            ops[n] = kind * 16 + key;
+            seq_dfs(ops, n + 1, depth, nkeys, embedded, r);
+        }
+}
+
+int e2_seq_main(int nkeys, int depth, int embedded)
+{
+    struct cref r;
+    int ops[16];
+    if (nkeys < 1) nkeys = 1;
+    if (nkeys > 8) nkeys = 8;
+    if (depth > 12) depth = 12;
+    r.nkeys = nkeys + 1;
+    r.present = malloc(r.nkeys);
+    r.serial = malloc(sizeof(int) * r.nkeys);
+    cap_ser = depth + 8;
+    cleaned = calloc(cap_ser, sizeof(int));
+    seq_runs = seq_viol = 0;
+    seq_dfs(ops, 0, depth, nkeys, embedded, &r);
+    printf("{\"summary\":{\"domain\":\"seqs%s\",\"keys\":%d,\"depth\":%d,\"runs\":%ld,\"violations\":%ld}}\n", embedded ? "@embedded" : "", nkeys, depth, seq_runs, seq_viol);
+    fflush(stdout);
+    if (seq_viol) _exit(1);
+    free(r.present); free(r.serial); free(cleaned);
+    return 0;
+}
